@@ -94,6 +94,9 @@ def build_tree(w, sc):
     canary_dir(os.path.dirname(parent))
     canary_dir(root + 'x')                    # prefix-sharing sibling dir
     canary_dir(root + '-old' if layout != 'carts-old' else root + '2')
+    up = os.path.dirname(root) + '/' + os.path.basename(root).upper()
+    if up != root:
+        canary_dir(up)                        # differs only by letter case
     canary_file(root + '.lua')                # prefix-sharing sibling file
     canary_file(root + 'x.lua')
     canary_dir(parent + '/cousin')
@@ -162,7 +165,8 @@ def require_roots(file_abs, lua_path):
 INC_COMPONENTS = ['ok', 'sub', 'deep', 'canary', 'init', 'x', '.', '..', '..',
                   '..', '', 'cousin', 'game', 'carts', 'carts-old', 'cartsx',
                   'proj', 'projx', 'proj-old', 'home', 'elsewhere', 'abs',
-                  'libs', 'libsx', 'work', 'okcart', '~', '~', '~root']
+                  'libs', 'libsx', 'work', 'okcart', '~', '~', '~root', 'PROJ',
+                  'CARTS', 'lib1', 'pkg']
 
 
 def _perturb(rng, path):
@@ -231,6 +235,8 @@ def gen_c12(rng, tier, index):
                           'env_value': ';'.join(rng.choice(entries_pool)
                                                 for _ in range(2))}
         sc['opts'] = rng.choice(['', '', ', {use_game_loop=true}'])
+    # directory separators written as backslashes in part of the runs
+    sc['backslash'] = rng.random() < 0.12
     sc['S'] = None      # derived at execution time from the tree (see _derive)
     if rng.random() < 0.35:
         k = rng.choice([1, 1, 2, 2, 3, 4, 5, 6])
@@ -292,6 +298,10 @@ def _derive_S(sc, w, info):
     if sc['mode'] == 'require' and sc.get('nest'):
         base = base + '/sub'
     targets = sorted(info['canaries'])
+    if sc.get('warmup') and sc['mode'] == 'require' and sc['aim'] < 0.5:
+        # what the warm-up build's load path (not ours) would resolve
+        return ['lib1', 'pkg', 'lib1/lib1', 'pkg/init'][
+            sc['aim_index'] % 4]
     if sc['aim'] < 0.8:
         tgt = targets[sc['aim_index'] % len(targets)]
     else:
@@ -382,6 +392,8 @@ def execute(sc):
         info = build_tree(w, sc)
         base = info['base']
         S = _derive_S(sc, w, info)
+        if sc.get('backslash') and not S.startswith('$ROOT'):
+            S = S.replace('/', '\\')
         S_real = w.subst(S)
         home_abs = w.p('home')
         operands = set()
@@ -448,7 +460,9 @@ def execute(sc):
                           b'warm_marker=1\nrequire("init")\n')
                     os.chdir(w.p(cousin))
                     tool.main(['build', w.p('out/warm.p8'), '--lua',
-                               'main.lua'])
+                               'main.lua', '--lua-path',
+                               '?;?.lua;%s/?.lua;%s/?/init.lua' % (
+                                   w.p('libs/sub'), w.p('libs/sub'))])
                 core.bump(res['probes'], 'warmup-load-elsewhere-first')
             except BaseException:
                 core.bump(res['probes'], 'warmup-load-failed')
@@ -667,9 +681,15 @@ def gen_c20(rng, tier, index):
     incs = [i for i, ln in enumerate(lines) if ln['t'] == 'inc']
     if incs and rng.random() < 0.2:
         sc['enoent'] = lines[rng.choice(incs)]['target']
-    if incs and rng.random() < 0.15:
+    if incs and rng.random() < 0.2:
         sc['prelude'] = rng.choice(['corrupt-header', 'lex-error',
-                                    'parse-error'])
+                                    'parse-error', 'relative-elsewhere',
+                                    'relative-elsewhere'])
+        if sc['prelude'] == 'relative-elsewhere':
+            sc['cwd'] = 'base'
+            sc['argstyle'] = 'rel'
+    if rng.random() < 0.2:
+        sc['layout'] = 'carts-sub'
     if rng.random() < 0.15:
         sc['via_symlink'] = True
     if sc['enoent'] is None and incs and rng.random() < 0.3:
@@ -789,6 +809,29 @@ def _prelude_failed_load(w, sc, res):
     from pico8.game import file as pfile
     base = 'work/proj'
     how = sc['prelude']
+    if how == 'relative-elsewhere':
+        # another project's cart with the same file names was loaded first,
+        # by relative name from its own directory
+        other = 'work/other'
+        for tg in sc['targets']:
+            rel = other + '/' + tg['rel']
+            if tg['kind'] == 'lua':
+                w.put(rel, b'other_project=1\n')
+            else:
+                w.put(rel, refcodec.encode_any(rel, refcodec.make_cart(
+                    code=b'other_project=1\n-->8\nother_tab1=1\n')))
+        incs = ['#include ' + tg['rel'] for tg in sc['targets']]
+        w.put(other + '/cart.p8', _p8_with_code(
+            ('\n'.join(['other_main=1'] + incs) + '\n').encode()))
+        cwd0 = os.getcwd()
+        os.chdir(w.p(other))
+        try:
+            pfile.from_file('cart.p8')
+            core.bump(res['probes'], 'same-named-cart-loaded-elsewhere-first')
+        except BaseException:
+            core.bump(res['probes'], 'prelude-load-elsewhere-failed')
+        os.chdir(cwd0)
+        return
     bad = {'corrupt-header': b'not a cart at all\n',
            'lex-error': refcodec.encode_p8(refcodec.make_cart(
                code=b'x = "unterminated\n')),
@@ -818,9 +861,20 @@ def _splice_round(w, sc, res, rno):
     w.out.truncate(0)
     if True:
         base = 'work/proj'
+        if sc.get('layout') == 'carts-sub':
+            # a project folder inside the PICO-8 carts folder; same-named
+            # decoy files sit at the top of the carts folder
+            base = CARTS_DIRS['carts-linux'] + '/game'
+            for tg in sc['targets']:
+                top = CARTS_DIRS['carts-linux'] + '/' + tg['rel']
+                if tg['kind'] == 'lua':
+                    w.put(top, b'decoy_top=1\n')
+                else:
+                    w.put(top, refcodec.encode_any(top, refcodec.make_cart(
+                        code=b'decoy_top=1\n-->8\ndecoy_tab1=1\n')))
         w.mkdir(base)
         w.mkdir('home')
-        if sc.get('via_symlink'):
+        if sc.get('via_symlink') and sc.get('layout') != 'carts-sub':
             # the cart directory is addressed through a symbolic link
             if not os.path.lexists(w.p('work/link')):
                 os.symlink('proj', w.p('work/link'))
@@ -856,7 +910,8 @@ def _splice_round(w, sc, res, rno):
         code = ('\n'.join(text_lines) + '\n').encode() if text_lines else b''
         cart_rel = base + '/cart.p8'
         w.put(cart_rel, _p8_with_code(code))
-        cwd_rel = {'root': '', 'base': base, 'parent': 'work'}[sc['cwd']]
+        cwd_rel = {'root': '', 'base': base,
+                   'parent': os.path.dirname(base)}[sc['cwd']]
         os.chdir(w.p(cwd_rel))
         main_abs = w.p(cart_rel)
         arg = main_abs if sc['argstyle'] == 'abs' else os.path.relpath(
@@ -1022,7 +1077,7 @@ def shrink(sc):
                         tabs = tg['tabs'][:k] + [c] + tg['tabs'][k + 1:]
                         yield dict(sc, targets=sc['targets'][:ti] + [
                             dict(tg, tabs=tabs)] + sc['targets'][ti + 1:])
-        for k in ('prelude', 'via_symlink', 'second'):
+        for k in ('prelude', 'via_symlink', 'second', 'layout'):
             if sc.get(k):
                 yield {kk: v for kk, v in sc.items() if kk != k}
         if sc['route'] != 'from_file':
@@ -1042,7 +1097,8 @@ def shrink(sc):
     for k, v in (('cwd', 'root'), ('argstyle', 'abs'), ('home', 'home'),
                  ('route', 'from_file' if sc['mode'] == 'include'
                   else 'build'), ('tab', None), ('nest', False),
-                 ('opts', ''), ('warmup', False), ('callform', 'paren')):
+                 ('opts', ''), ('warmup', False), ('callform', 'paren'),
+                 ('backslash', False)):
         if k in sc and sc[k] != v:
             yield dict(sc, **{k: v})
     lp = sc.get('lua_path')
